@@ -30,6 +30,8 @@
 #include <memory>
 #include <map>
 #include <set>
+#include <stdexcept>
+#include <string>
 
 #include "builtin.hh"
 #include "builtin-cst.hh"
@@ -97,10 +99,11 @@ vocabulary::vocabulary (vocabulary const &a, vocabulary const &b)
 	  // and each of them has a different set of specializations,
 	  // we can merge.
 	  auto ola = std::dynamic_pointer_cast <overloaded_builtin const> (ba);
-	  assert (ola != nullptr);
-
 	  auto olb = std::dynamic_pointer_cast <overloaded_builtin const> (bb);
-	  assert (olb != nullptr);
+	  if (ola == nullptr || olb == nullptr)
+	    throw std::runtime_error
+	      (std::string ("Can't merge vocabularies: `") + name
+	       + "' is defined in both of them and is not an overload.");
 
 	  auto ta = ola->get_overload_tab ();
 	  auto tb = olb->get_overload_tab ();
